@@ -7,7 +7,7 @@ Opts == {"gf", "gf_terminals", "mark_heads_marking", "boyd_split_marking", "boyd
 Labs == {<<"N", "P">>, <<"N", "P", "-", "S", "B", "J", "'">>}
 Edges == {<<"H", "D">>, <<"-", "-">>, <<"-", "X">>}
 Init == c \in [lab : Labs, edge : Edges, head : {"T", "F"}, split : {"T", "F"}, bn : {1, 2},
-               inner : BOOLEAN, o : SUBSET Opts, gfsep : {"-", "#"}]
+               inner : BOOLEAN, o : SUBSET Opts, gfsep : {"-", "#", "0"}]   \* ("0": what `gf_separator:0` becomes on the command line)
 Next == UNCHANGED c
 D == Decorate(c, c.o, c.gfsep, <<ToString(c.bn)>>)
 InvDecor ==
